@@ -3,4 +3,5 @@ Require Extraction.
 Require Import ExtrOcamlBasic.
 From Adapt Require Import Num.Qaux Cola.CompoundCsModel Cola.NonOverlapModel Cola.ContainmentModel Cola.VarLayoutModel.
 Extraction "c08_model.ml" run_ops gen_nonoverlap exempt_pairs gen_containment Sepb sep2b boxes_sepb
-  setup_layout setup_layout_flat stored_layout containments setup_user_system gen_system tag_at.
+  setup_layout setup_layout_flat stored_layout containments setup_user_system gen_system tag_at
+  gen_fixed_rect fixed_rect_constraints inside_rectb members_inside_rectb.
